@@ -9,6 +9,7 @@ import (
 	"sort"
 	"strings"
 	"syscall"
+	"time"
 
 	evalfilter "github.com/skx/evalfilter/v2"
 	"github.com/skx/evalfilter/v2/object"
@@ -585,6 +586,13 @@ func scriptPool() []string {
 	}
 	for i, b := range c08Builtins {
 		out = append(out, fmt.Sprintf("x = %s(%s); hv(x); return x;", b, c08BuiltinArgs[(i*5)%len(c08BuiltinArgs)]))
+		if i >= len(c08KnownBuiltins) {
+			// a built-in the pinned tree does not have: nobody knows what it
+			// takes, so it gets every kind of argument
+			for _, a := range append(append([]string{}, c08BuiltinArgs...), `{"a": 0.1, "b": 0.2, "c": 0.3}`, `{"a": 0.1, "b": 0.7, "c": 0.2, "d": 100000000.5, "e": 3}`, `[0.1, 0.2, 0.3, 100000000.5]`, `{1: "x", "1": "y", 2.5: [1, 2]}`, `"héllo wörld", 3`, `Items`, `M`, `S, 2`) {
+				out = append(out, fmt.Sprintf("x = %s(%s); hv(string(x)); return x;", b, a))
+			}
+		}
 	}
 	for _, e := range c08LexEdges {
 		if strings.Contains(e, ";") {
@@ -884,4 +892,49 @@ func editedScript(c *verifsim.Chooser, text string) (string, string) {
 	// (an integer: generated scripts double g1 in loops, which is harmless for
 	// numbers and exponential for strings)
 	return text + "\ng1 = 77;\n", "a statement appended"
+}
+
+// Methods of *evalfilter.Eval that the pinned tree does not have (a change may
+// add API): found by reflection, classified by signature, and exercised where
+// a check can do so without knowing what they mean.
+var (
+	apiKnown = map[string]bool{"AddFunction": true, "Dump": true, "Execute": true, "GetVariable": true, "Prepare": true, "Run": true,
+		"SetContext": true, "SetVariable": true, "VerifScopes": true, "VerifStack": true, "VerifGlobalNames": true, "VerifFunctionNames": true}
+	apiDurationSetters, apiNullary, apiCloners, apiOther []string
+)
+
+func init() {
+	t := reflect.TypeOf(evalfilter.New("return 1;"))
+	durT := reflect.TypeOf(time.Duration(0))
+	for i := 0; i < t.NumMethod(); i++ {
+		m := t.Method(i)
+		if apiKnown[m.Name] {
+			continue
+		}
+		ft := m.Type // (receiver is the first parameter)
+		switch {
+		case ft.NumIn() == 2 && ft.In(1) == durT && ft.NumOut() <= 1:
+			apiDurationSetters = append(apiDurationSetters, m.Name)
+		case ft.NumIn() == 1 && ft.NumOut() >= 1 && ft.Out(0) == t:
+			apiCloners = append(apiCloners, m.Name)
+		case ft.NumIn() == 1 && ft.NumOut() <= 1 && (ft.NumOut() == 0 || ft.Out(0).String() == "error"):
+			apiNullary = append(apiNullary, m.Name)
+		default:
+			apiOther = append(apiOther, m.Name)
+		}
+	}
+}
+
+// apiCall calls a discovered method by name; a panic is returned as text.
+func apiCall(e *evalfilter.Eval, name string, args ...interface{}) (out []reflect.Value, panicked string) {
+	defer func() {
+		if r := recover(); r != nil {
+			panicked = fmt.Sprint(r)
+		}
+	}()
+	in := make([]reflect.Value, len(args))
+	for i, a := range args {
+		in[i] = reflect.ValueOf(a)
+	}
+	return reflect.ValueOf(e).MethodByName(name).Call(in), ""
 }
